@@ -303,6 +303,26 @@ impl ClipCtx {
                 self.entries.push(ClipEntry::Rect(*a, *b, *c, *d));
                 true
             }
+            // a path pushed under a non-invertible transform collapses onto a line or a point: its coverage is zero
+            // everywhere, the clip hides everything until it is popped
+            // (zero away from the collapsed image: within a pixel and a half of it the vertices' snapping to the
+            // sample grid can open a sliver, and any coverage is admitted there)
+            Op::PushClipPath(p) if xf_det(xf) == 0.0 && xf.iter().all(|v| v.is_finite()) => {
+                let pts: Vec<(f64, f64)> = p.points().iter().map(|q| xf_apply(xf, (q.0 as f64, q.1 as f64))).collect();
+                let mut cov = Vec::with_capacity((w * h) as usize);
+                for i in 0..(w * h) {
+                    let q = ((i % w) as f64 + 0.5, (i / w) as f64 + 0.5);
+                    let mut d = f64::INFINITY;
+                    for a in &pts {
+                        for b in &pts {
+                            d = d.min(crate::geom::dist_point_seg(q, *a, *b));
+                        }
+                    }
+                    cov.push(if d > 1.5 { vec![0u32] } else { (0u32..=255).collect() });
+                }
+                self.entries.push(ClipEntry::Path(cov));
+                true
+            }
             Op::PushClipPath(p) => match exact_cov(p, xf, w, h, true) {
                 Some(c) => {
                     self.entries.push(ClipEntry::Path(c));
